@@ -280,6 +280,9 @@ func (f *Filter) Equals(other *Filter) bool {
 	if f.customTag != other.customTag {
 		return false
 	}
+	if f.isEmpty != other.isEmpty {
+		return false
+	}
 	if f.negate != other.negate {
 		return false
 	}
